@@ -55,8 +55,10 @@ func (w *Workers) Call(count int, value func() (interface{}, error)) (interface{
 		go w.worker()
 	}
 	w.mutex.Unlock()
+	verifAt("workers.after.unlocked1", nil, 0)
 	verifAt("workers.call.recv", w, 0)
 	result := <-output
+	verifAt("workers.after.passed1", nil, 0)
 	return result.result, result.error
 }
 
@@ -80,6 +82,7 @@ func (w *Workers) Wait() {
 	for w.count != 0 {
 		verifAt("workers.wait.wait", w, 0)
 		w.cond.Wait()
+		verifAt("workers.after.woke1", nil, 0)
 	}
 }
 
@@ -120,12 +123,14 @@ func (w *Workers) worker() {
 				verifAt("workers.worker.bcast", w, 0)
 			}
 			w.mutex.Unlock()
+			verifAt("workers.after.unlocked2", nil, 0)
 			return
 		}
 		item := w.queue[0]
 		w.queue[0] = nil
 		w.queue = w.queue[1:]
 		w.mutex.Unlock()
+		verifAt("workers.after.unlocked3", nil, 0)
 		func() {
 			defer close(item.output)
 			var result struct {
@@ -134,6 +139,7 @@ func (w *Workers) worker() {
 			}
 			result.result, result.error = item.value()
 			item.output <- result
+			verifAt("workers.after.passed2", nil, 0)
 		}()
 	}
 }
